@@ -1,2 +1,186 @@
-use crate::harness::Gen;
-pub fn gens() -> Vec<Gen> { vec![] }
+//! C15: a holder can narrow an existing presentation without the original SD-JWT.
+
+use crate::harness::{fail, Gen, Verdict};
+use crate::oracle::{hidden_paths, view, Path, Strategy};
+use crate::pipeline::Cfg;
+use crate::rng::Rng;
+use crate::sut::{self, Out};
+use crate::trees::{self, build_selection, SelStyle};
+use crate::util::{jstr, short, Parts, FAR_EXP, J};
+use serde_json::json;
+use std::collections::HashSet;
+
+pub fn gens() -> Vec<Gen> {
+    vec![
+        Gen { name: "c15.chains", prop: "C15", tags: &["narrow", "select_disclosures", "holder", "src/holder.rs"], cases: cases_chains, check },
+        Gen { name: "c15.random_chains", prop: "C15", tags: &["random"], cases: cases_random, check },
+    ]
+}
+
+fn special_trees() -> Vec<J> {
+    vec![
+        json!({"iss": "i", "exp": FAR_EXP, "name": "N", "email": "E", "addr": {"city": "C", "zip": "Z"}, "tags": ["t0", "t1", "t2"]}),
+        json!({"iss": "i", "exp": FAR_EXP, "list": [{"a": 1, "b": 2}, {"c": 3}, "s", [1, 2]], "m": [["x", "y"], ["z"]]}),
+        json!({"iss": "i", "exp": FAR_EXP, "o": {"p": {"q": 1, "r": 2}, "s": [true, false]}, "t": null}),
+    ]
+}
+
+/// Upward closure: selecting a node selects its hidden ancestors.
+fn close(set: &HashSet<Path>, st: &Strategy) -> HashSet<Path> {
+    let mut out = set.clone();
+    for p in set {
+        for l in 1..p.len() {
+            if st.designated(&p[..l]) {
+                out.insert(p[..l].to_vec());
+            }
+        }
+    }
+    out
+}
+
+fn emit_chain(claims: &J, strategy: &Strategy, sets: &[HashSet<Path>], n: usize, style_mix: bool, rng: &mut Rng, sink: &mut dyn FnMut(J) -> bool) -> bool {
+    let mut cfg = Cfg::simple(claims.clone(), strategy.clone()).variant(n);
+    cfg.holder = None;
+    let chain: Vec<J> = sets
+        .iter()
+        .enumerate()
+        .map(|(i, s)| {
+            let style = if style_mix && i % 2 == 1 { SelStyle::Sparse } else { SelStyle::FullShape };
+            J::Object(build_selection(claims, strategy, s, style, rng))
+        })
+        .collect();
+    let mut c = cfg.to_json();
+    c["chain"] = J::Array(chain);
+    sink(c)
+}
+
+fn cases_chains(rng: &mut Rng, sink: &mut dyn FnMut(J) -> bool) {
+    let mut n = 0usize;
+    let mut all_trees = special_trees();
+    for (i, t) in trees::catalog().iter().enumerate() {
+        all_trees.push(trees::with_std(t, i));
+    }
+    for claims in &all_trees {
+        let mut strategies = vec![Strategy::AllLevels, Strategy::TopLevel];
+        strategies.extend(trees::strategies_for(claims, rng, 0, 2).into_iter().skip(3).take(4));
+        for s in &strategies {
+            let hidden = hidden_paths(claims, s);
+            if hidden.is_empty() {
+                continue;
+            }
+            let full: HashSet<Path> = hidden.iter().cloned().collect();
+            // D1 = everything, D2 = everything minus one node (and its descendants), for every node
+            for drop in &hidden {
+                let d2: HashSet<Path> = full.iter().filter(|p| !(p.len() >= drop.len() && p[..drop.len()] == drop[..])).cloned().collect();
+                n += 1;
+                if !emit_chain(claims, s, &[full.clone(), d2.clone()], n, false, rng, sink) {
+                    return;
+                }
+                // then drop a second node
+                for drop2 in hidden.iter().take(6) {
+                    let d3: HashSet<Path> = d2.iter().filter(|p| !(p.len() >= drop2.len() && p[..drop2.len()] == drop2[..])).cloned().collect();
+                    if d3.len() == d2.len() {
+                        continue;
+                    }
+                    n += 1;
+                    if !emit_chain(claims, s, &[full.clone(), d2.clone(), d3.clone()], n, n % 3 == 0, rng, sink) {
+                        return;
+                    }
+                    n += 1;
+                    if !emit_chain(claims, s, &[d2.clone(), d3.clone(), d3.clone(), HashSet::new()], n, false, rng, sink) {
+                        return;
+                    }
+                }
+            }
+        }
+    }
+}
+
+fn cases_random(rng: &mut Rng, sink: &mut dyn FnMut(J) -> bool) {
+    let mut n = 0usize;
+    loop {
+        let claims = if rng.chance(1, 3) {
+            rng.pick(&special_trees()).clone()
+        } else {
+            let (a, b) = (5 + rng.below(8), 2 + rng.below(4));
+            trees::with_std(&trees::random_tree(rng, a, b), rng.below(3))
+        };
+        let strategies = trees::strategies_for(&claims, rng, 0, 3);
+        let s = rng.pick(&strategies).clone();
+        let hidden = hidden_paths(&claims, &s);
+        if hidden.is_empty() {
+            continue;
+        }
+        let k = 2 + rng.below(3);
+        let mut sets: Vec<HashSet<Path>> = Vec::new();
+        let mut cur: HashSet<Path> = close(&hidden.iter().filter(|_| rng.chance(4, 5)).cloned().collect(), &s);
+        for _ in 0..k {
+            sets.push(cur.clone());
+            // deselect arbitrary nodes (with their descendants)
+            let drops: Vec<Path> = cur.iter().filter(|_| rng.chance(1, 4)).cloned().collect();
+            cur = cur.iter().filter(|p| !drops.iter().any(|d| p.len() >= d.len() && p[..d.len()] == d[..])).cloned().collect();
+        }
+        n += 1;
+        if !emit_chain(&claims, &s, &sets, n, rng.coin(), rng, sink) {
+            return;
+        }
+    }
+}
+
+fn disclosure_set(text: &str, format: &str) -> Option<HashSet<String>> {
+    Parts::parse(text, format).map(|p| p.disclosures.into_iter().collect())
+}
+
+pub fn check(case: &J) -> Verdict {
+    let Some(mut cfg) = Cfg::from_json(case) else { return Verdict::Trivial };
+    cfg.holder = None;
+    let Some(chain) = case["chain"].as_array() else { return Verdict::Trivial };
+    let issued = match cfg.issue() {
+        Out::Ok(s) => s,
+        o => return fail(format!("issue_sd_jwt -> {}", o.brief()), "Ok"),
+    };
+    let mut current = issued.clone();
+    for (i, sel) in chain.iter().enumerate() {
+        let Some(sel) = sel.as_object() else { return Verdict::Trivial };
+        // direct selection from the original
+        let direct = {
+            let mut h = match sut::holder_new(&issued, &cfg.format) {
+                Out::Ok(h) => h,
+                o => return fail(format!("SDJWTHolder::new(issued) -> {}", o.brief()), "Ok"),
+            };
+            match sut::present(&mut h, sel, None) {
+                Out::Ok(p) => p,
+                // a selection that the original holder refuses is outside the property
+                _ => return Verdict::Trivial,
+            }
+        };
+        // the same selection on a holder built from the previous presentation
+        let what = format!("step {} of the narrowing chain (selection {})", i + 1, short(&jstr(&J::Object(sel.clone())), 300));
+        let mut h = match sut::holder_new(&current, &cfg.format) {
+            Out::Ok(h) => h,
+            o => return fail(format!("{what}: SDJWTHolder::new(previous presentation) -> {}", o.brief()), "Ok"),
+        };
+        let narrowed = match sut::present(&mut h, sel, None) {
+            Out::Ok(p) => p,
+            o => return fail(format!("{what}: create_presentation on a holder built from the previous presentation -> {}", o.brief()), "the same presentation as selecting directly from the issued SD-JWT"),
+        };
+        let (Some(dn), Some(dd)) = (disclosure_set(&narrowed, &cfg.format), disclosure_set(&direct, &cfg.format)) else {
+            return fail(format!("{what}: a presentation does not parse"), "well-formed presentations");
+        };
+        if dn != dd {
+            return fail(
+                format!("{what}: narrowing yields {} disclosures, direct selection {} (only in narrowed: {}, only in direct: {})", dn.len(), dd.len(), dn.difference(&dd).count(), dd.difference(&dn).count()),
+                "the same disclosure set",
+            );
+        }
+        let vn = sut::verify(&narrowed, &cfg.alg, None, &cfg.format);
+        let vd = sut::verify(&direct, &cfg.alg, None, &cfg.format);
+        let expected = view(&cfg.claims, &cfg.strategy, &J::Object(sel.clone()));
+        match (&vn, &vd) {
+            (Out::Ok(a), Out::Ok(b)) if a == b && *a == expected => {}
+            _ => return fail(format!("{what}: verifier on narrowed -> {}; on direct -> {}", vn.show(), vd.show()), format!("both Ok({})", short(&jstr(&expected), 300))),
+        }
+        current = narrowed;
+    }
+    Verdict::Pass
+}
